@@ -1,6 +1,6 @@
 #!/usr/bin/env python3
 """confirm agent mutants: tests still pass with the change; demo differs between unchanged and changed tree"""
-import json, os, shutil, subprocess, sys, glob
+import re, json, os, shutil, subprocess, sys, glob
 WT='/tmp/confirm_wt'
 TARGET='/tmp/confirm_target'
 env=dict(os.environ, CARGO_TARGET_DIR=TARGET, CARGO_NET_OFFLINE='true')
@@ -44,7 +44,9 @@ for d in sorted(glob.glob('/tmp/wt/C??')):
             res['error']='diff does not apply: '+o[-200:]; results[key]=res; continue
         rc,o=sh('cargo test --offline 2>&1 | grep -E "^test result|FAILED|^error" | head -8', WT, 900)
         res['tests']=o.strip().replace('\n',' | ')
-        res['tests_pass']= ('FAILED' not in o and 'error' not in o and '46 passed' in o and '53 passed' in o)
+        m_ = re.search(r'(\d+) passed', o)
+        # a change may bring unit tests of its own (47 passed): the 46 + 53 existing ones are all still there and pass
+        res['tests_pass']= ('FAILED' not in o and 'error' not in o and m_ is not None and int(m_.group(1)) >= 46 and '53 passed' in o)
         mut=run_demo()
         res['demo_differs']= base!=mut
         res['base']={k_:v[-300:] for k_,v in base.items()}
